@@ -27,6 +27,10 @@ Play(p, mvs, i) == IF i > Len(mvs) THEN [ok |-> TRUE, p |-> p]
                    ELSE LET r == Resolve(p, mvs[i][1], mvs[i][2], mvs[i][3]) IN
                         IF Cardinality(r) # 1 THEN [ok |-> FALSE, p |-> p] ELSE Play(Apply(p, CHOOSE m \in r : TRUE), mvs, i + 1)
 
+RECURSIVE LanFollow(_, _, _)
+LanFollow(p, toks, i) == IF i > Len(toks) THEN TRUE
+                         ELSE \E m \in { x \in Legal(p) : Lan(x) = Concat(toks[i]) } : LanFollow(Apply(p, m), toks, i + 1)
+
 TSession ==
   /\ IsEvent("Session")
   /\ pos' = StartPos /\ due' = <<>> /\ clean' = TRUE /\ sess' = [wellformed |-> Rec[l].wellformed, id |-> Rec[l].id, pacing |-> Rec[l].pacing]
@@ -79,6 +83,11 @@ TOut ==
                           [kind |-> "move answered from the opening book was not played from this position in the game files", pos |-> ToFen(due[1].p), mv |-> Concat(Rec[l].mv), session |-> sess.id])
                 ELSE Diag("C16", Concat(Rec[l].mv) \in { Lan(m) : m \in Legal(due[1].p) },
                           [kind |-> "move answered from the opening book is not legal in this position (reached by another history)", pos |-> ToFen(due[1].p), mv |-> Concat(Rec[l].mv), session |-> sess.id])
+      ELSE TRUE)
+  \* `info pv <moves>`: a line reported by the search that is running - the one the latest go started (C03 seen through the front end)
+  /\ (IF Rec[l].kind = "pv" /\ due # <<>> /\ LegalPosition(due[Len(due)].p)
+      THEN Diag("C03", Len(Rec[l].pv) >= 1 /\ LanFollow(due[Len(due)].p, Rec[l].pv, 1),
+                [kind |-> "info pv line is empty or not playable from the position searched", pos |-> ToFen(due[Len(due)].p), line |-> [j \in 1..Len(Rec[l].pv) |-> Concat(Rec[l].pv[j])], session |-> sess.id])
       ELSE TRUE)
   /\ LET e == Rec[l] IN
      CASE e.kind = "bestmove" ->
